@@ -253,11 +253,28 @@ def stripIndent (out : List Int) (od : Options Int) (level : Int) : Option (List
       else if i + 1 == n ∧ l.isEmpty then some l else none
     stripped.map (joinWith od.lineSep)
 
+/-- a separator that overlaps itself ("--", "||": a proper prefix is also a suffix).  Where the
+text next to it holds a piece of it ("a-" ++ "--" ++ "b") the output has no unique decomposition
+into lines, so the line-wise clauses of C06/C07/C12/C13 cannot be evaluated on it (the
+line-count theorems need `Unbordered` for the same reason, see Model/OpsStructure.lean).  The
+correspondence check still covers these separators exactly. -/
+def bordered (s : List Int) : Bool :=
+  (List.range s.length).any fun k => k > 0 && s.take k == s.drop (s.length - k)
+
 /-- per-step layout checks for property `pid` -/
 def layoutStep (pid : String) (a : List String) (src : Obs) (res : Obs) : String :=
   match src with
   | .ed text so _ _ =>
     let parasOn (od : Options Int) := od.preservePara
+    let sepOf (o : String) : List Int := match effOpts so o with | some od => od.lineSep | none => []
+    let lineWise := match a with
+      | ["wrap", _, _, o] => bordered (sepOf o)
+      | ["justify", _, _, o] => bordered (sepOf o)
+      | ["align", _, _, _, o] => bordered (sepOf o)
+      | ["collapse", _, o] => bordered (sepOf o)
+      | ["indent", _, _, o] => bordered (sepOf o)
+      | _ => false
+    if lineWise then (match res with | .err k => s!"fail:C18 operation failed ({k})" | _ => "skip:bordered-separator") else
     match a, res with
     | ["wrap", _, w, o], .ed out _ _ _ =>
       match parseInt w, effOpts so o with
